@@ -73,6 +73,17 @@ def runIsa (line : String) : String :=
         | .ok (l, s') => go k s' (l :: acc)
         | .error e => (("stop " ++ e) :: acc).reverse
     "|".intercalate ("rst=-" :: go n.toNat! s0 [])
+  | ["seq", n, mem, _poweron] =>   -- the ISA starts from the reset state whatever the registers held before
+    let sp := (parseSparse mem).filter (·.1 < memWords)
+    let s0 : Isa.St := { pc := 0, a := 0, b := 0, o := 0, mem := memOfSparseIsa sp }
+    let rec goP (k : Nat) (s : Isa.St) (acc : List String) : List String :=
+      match k with
+      | 0 => acc.reverse
+      | k + 1 =>
+        match isaObs s [] with
+        | .ok (l, s') => goP k s' (l :: acc)
+        | .error e => (("stop " ++ e) :: acc).reverse
+    "|".intercalate ("rst=-" :: goP n.toNat! s0 [])
   | _ => "bad-op"
 
 def main : IO Unit := do
